@@ -4,6 +4,7 @@ import I18n.Driver.Mo
 import I18n.Driver.CFmt
 import I18n.Driver.Tags
 import I18n.Driver.Date
+import I18n.Driver.Locale
 /- Line-protocol driver: `<model> <op> <args…>` per line on stdin, one canonical line per op on stdout. -/
 open I18n.Driver
 
@@ -15,6 +16,7 @@ def step (line : String) : String :=
   | "cfmt" :: op :: args => CFmt.handle op args
   | "tags" :: op :: args => Tags.handle op args
   | "date" :: op :: args => Date.handle op args
+  | "locale" :: op :: args => Locale.handle op args
   | _ => "bad-op"
 
 partial def loop (h : IO.FS.Stream) (out : IO.FS.Stream) : IO Unit := do
